@@ -30,13 +30,15 @@ Theorem C01_vtt_shift : forall sh t, us (vtt_shifted sh t) = us (vtt_instant t) 
 Proof. exact vtt_shift_exact. Qed.
 Print Assumptions C01_vtt_shift.
 
-(* the whole timing line `start --> end [settings]`, lenient or strict (on ordered cues) *)
-Theorem C01_vtt_timing_line_exact : forall strict shift t0 t1 tail last,
+(* the whole timing line `start --> end [settings]` with any run of blanks / tabs on either side of the arrow,
+   lenient or strict (on ordered cues) *)
+Theorem C01_vtt_timing_line_exact : forall strict shift t0 t1 ws1 ws2 tail last,
   vtt_stamp_dom t0 = true -> vtt_stamp_dom t1 = true ->
+  blank_run ws1 = true -> blank_run ws2 = true ->
   (tail = [] \/ exists s, tail = 32 :: s) ->
   (strict = true ->
    us (vtt_instant t0) + shift <= us (vtt_instant t1) + shift /\ last <= us (vtt_instant t0) + shift) ->
-  vtt_parse_timing strict shift (vtt_render_stamp t0 ++ arrow ++ vtt_render_stamp t1 ++ tail) last
+  vtt_parse_timing strict shift (vtt_render_stamp t0 ++ ws1 ++ lit "-->" ++ ws2 ++ vtt_render_stamp t1 ++ tail) last
   = Ok (us (vtt_instant t0) + shift, us (vtt_instant t1) + shift).
 Proof. exact vtt_timing_exact. Qed.
 Print Assumptions C01_vtt_timing_line_exact.
@@ -59,6 +61,12 @@ Theorem C01_dfxp_div_exact : forall ps, forallb dfxp_p_dom ps = true ->
   dfxp_div_times (map dfxp_p_attrs ps) = Ok (map dfxp_p_expected ps).
 Proof. exact dfxp_div_exact. Qed.
 Print Assumptions C01_dfxp_div_exact.
+
+(* begin+dur: the oracle admits floor(begin)+floor(dur) and floor(begin+dur); the model's answer is admitted *)
+Theorem C01_dfxp_div_meets_oracle : forall ps, forallb dfxp_p_dom ps = true ->
+  ok_times_alt (map dfxp_p_expected ps) (map dfxp_p_expected_alt ps) (dfxp_div_times (map dfxp_p_attrs ps)) = true.
+Proof. exact dfxp_div_meets_oracle. Qed.
+Print Assumptions C01_dfxp_div_meets_oracle.
 
 (* MicroDVD: frame n under the default rate or any declared decimal rate *)
 Theorem C01_mdvd_frames_exact : forall f n, fps_dom f = true ->
@@ -106,13 +114,15 @@ Proof. exact mdvd_doc_exact. Qed.
 Print Assumptions C01_mdvd_doc_exact.
 
 (* ---- DFXP and SAMI documents as abstract trees (what BeautifulSoup hands to the readers) ------------
-   DFXP: several <div> with language resolution (own xml:lang, the document's, the default), paragraphs with
-   text (time attributes among other attributes) and without (never looked at), one caption list per language *)
-Theorem C01_dfxp_tree_exact : forall default tt divs, tree_dom default tt divs = true ->
-  dfxp_read_tree default tt (map (fun dv => (fst dv, map ap_render (snd dv))) divs)
-  = set_result (tree_expected default tt divs).
-Proof. exact dfxp_tree_exact. Qed.
-Print Assumptions C01_dfxp_tree_exact.
+   DFXP: any number of <div>, SEVERAL OF ONE LANGUAGE and NESTED ones included; a paragraph belongs to its nearest
+   <div>, its language is the nearest xml:lang on the way out (else the document's, else the default); paragraphs
+   with text (time attributes among other attributes) and without (never looked at), or outside every <div>; per
+   language the cues of all its divisions in document order *)
+Theorem C01_dfxp_doc_exact : forall default tt divs ps, doc_dom divs ps = true ->
+  dfxp_read_doc default tt divs (map (fun cp => (fst cp, ap_render (snd cp))) ps)
+  = set_result (doc_expected default tt divs ps).
+Proof. exact dfxp_doc_exact. Qed.
+Print Assumptions C01_dfxp_doc_exact.
 Theorem C01_dfxp_blank_paragraph_ignored : forall a ps, dfxp_div_caps (mkXp a false :: ps) = dfxp_div_caps ps.
 Proof. exact dfxp_blank_ignored. Qed.
 Print Assumptions C01_dfxp_blank_paragraph_ignored.
@@ -174,7 +184,7 @@ Example C01_ex_mdvd_doc :
   mdvd_read (mdvd_render false (Some (mkFps 0 23 [9; 7; 6])) cues) = Ok [(8383383, 8466800, [lit "a"; lit "b"])].
 Proof. vm_compute. repeat split; reflexivity. Qed.
 Example C01_ex_vtt_doc :
-  let cues := [mkVttCue (Some (lit "id1")) (mkVtt None 0 1 0) (mkVtt (Some (0%nat, 100)) 0 0 5) (Some (lit "align:start")) [lit "x"] 2] in
+  let cues := [mkVttCue [lit "NOTE a"; []; lit "id1"] (mkVtt None 0 1 0) (mkVtt (Some (0%nat, 100)) 0 0 5) [9] [32; 32] (Some (lit "align:start")) [lit "x"] 2] in
   forallb vtt_cue_dom cues = true /\ vtt_sorted_from (-500) 0 cues = true /\
   vtt_read true (-500) (vtt_render false cues) = Ok [(500000, 359999505000, [lit "x"])].
 Proof. vm_compute. repeat split; reflexivity. Qed.
@@ -185,11 +195,26 @@ Example C01_ex_sami_tree :
   sami_read_tree [lit "en"; lit "fr"] (map async_render body)
   = Ok [(lit "en", [(1000000, 2000000); (5000000, 9000000)]); (lit "fr", [(1000000, 3000000); (3000000, 7000000)])].
 Proof. vm_compute. split; reflexivity. Qed.
-Example C01_ex_dfxp_tree :
-  let divs := [(None, [APText [(lit "region", lit "r1")] (mkP (Offset 0 1 [] Ms) true (Offset 0 1 [5] Ms));
-                       APBlank [(lit "begin", lit "junk")]]);
-               (Some (lit "fr"), [APText [] (mkP (Clock 1 0 1 0 NoFrac) false (Clock 1 0 1 1 (Frames 15)))])] in
-  tree_dom (lit "und") (Some (lit "en")) divs = true /\
-  dfxp_read_tree (lit "und") (Some (lit "en")) (map (fun dv => (fst dv, map ap_render (snd dv))) divs)
-  = Ok [(lit "en", [(1000000, 2500000)]); (lit "fr", [(60000000, 61500000)])].
+Example C01_ex_dfxp_doc :
+  let d := [None] in let fr := [Some (lit "fr"); None] in let frin := [None; Some (lit "fr"); None] in
+  let p t := APText [] (mkP (Offset 0 t [] Ms) false (Offset 0 (t + 1) [] Ms)) in
+  let ps := [(Some d, p 1); (Some fr, p 5); (Some frin, p 6); (Some d, p 8); (None, p 9);
+             (Some [None], APBlank [(lit "begin", lit "junk")]); (Some [None], p 3)] in
+  doc_dom [d; fr; frin; [None]] ps = true /\
+  dfxp_read_doc (lit "und") (Some (lit "en")) [d; fr; frin; [None]] (map (fun cp => (fst cp, ap_render (snd cp))) ps)
+  = Ok [(lit "en", [(1000000, 2000000); (8000000, 9000000); (3000000, 4000000)]);
+        (lit "fr", [(5000000, 6000000); (6000000, 7000000)])].
+Proof. vm_compute. split; reflexivity. Qed.
+Example C01_ex_vtt_timing_line :
+  vtt_parse_timing true 0 (lit "00:01.000" ++ [9; 32] ++ lit "-->" ++ [32; 32] ++ lit "01:00:02.500" ++ lit " align:left") 0
+  = Ok (1000000, 3602500000).
+Proof. vm_compute. reflexivity. Qed.
+Example C01_ex_mdvd_fps :
+  mdvd_fps (lit "23.976") = Ok (23976, 1000) /\ mdvd_fps (lit " 1e2 ") = Ok (100, 1) /\ mdvd_fps (lit ".5") = Ok (5, 10)
+  /\ sami_start (Some (lit "1000.0")) = Ok 1000 /\ sami_start (Some (lit "1e3")) = Ok 1000
+  /\ dfxp_time (lit "1s" ++ [10]) = Ok 1000000.
+Proof. vm_compute. repeat split; reflexivity. Qed.
+Example C01_ex_begin_dur_two_readings :
+  let p := mkP (Offset 0 1 [] Mf) true (Offset 0 2 [] Mf) in
+  dfxp_p_expected p = (33333, 99999) /\ dfxp_p_expected_alt p = (33333, 100000).
 Proof. vm_compute. split; reflexivity. Qed.
